@@ -15,6 +15,9 @@ from . import terms as T
 from .terms import V, match
 
 IX = ("ix",)
+IXO = ("ixo",)      # index of the enclosing sequence in a nested segment
+# base terms of slices whose elements are Options: `.flatten()` over their iterator skips the Nones (filled in by rules)
+OPTION_BASES = set()
 
 
 def _N(t):
@@ -63,6 +66,17 @@ def apply_closure(crate, clo, arg, arg_by_ref=False):
 
 def seg(count, value, cond=None):
     return {"count": count, "value": value, "cond": cond}
+
+
+def stream_or_elems(crate, t):
+    """an IntoIterator argument: an iterator expression, or else the elements of a collection-valued expression"""
+    s = parse_stream(crate, t)
+    if s is not None:
+        return s
+    base = _strip_refs(t)
+    if base[0] in ("call", "field", "param", "index"):
+        return [seg(("len", base), ("index", base, IX))]
+    return None
 
 
 def parse_stream(crate, t):
@@ -121,8 +135,29 @@ def parse_stream(crate, t):
         if s is None:
             return None
         return [seg(g["count"], ("deref", g["value"]), g["cond"]) for g in s]
+    if name.endswith("Iterator::flatten") and len(a) == 1:
+        s = parse_stream(crate, a[0])
+        if s is None or len(s) != 1 or "inner" in s[0] or s[0]["cond"] is not None:
+            return None
+        v = s[0]["value"]
+        el = _strip_refs(v)
+        if el[0] == "index" and el[1] in OPTION_BASES:
+            some = ("field", ("variant", el, "Some"), 0)
+            return [seg(s[0]["count"], ("ref", some) if v[0] == "ref" else some, ("is-some", el))]
+        return None
+    if name.endswith("Iterator::flat_map") and len(a) == 2:
+        s = parse_stream(crate, a[0])
+        if s is None or len(s) != 1 or "inner" in s[0]:
+            return None
+        outer_val = subst(s[0]["value"], IX, IXO)
+        body = apply_closure(crate, a[1], outer_val)
+        inner = stream_or_elems(crate, body) if body is not None else None
+        if inner is None or any("inner" in g for g in inner):
+            return None
+        return [{"count": s[0]["count"], "value": None, "cond": subst(s[0]["cond"], IX, IXO) if s[0]["cond"] is not None else None,
+                 "inner": inner}]
     if name.endswith("Iterator::chain") and len(a) == 2:
-        s1, s2 = parse_stream(crate, a[0]), parse_stream(crate, a[1])
+        s1, s2 = parse_stream(crate, a[0]), stream_or_elems(crate, a[1])
         if s1 is None or s2 is None:
             return None
         return s1 + s2
@@ -141,7 +176,10 @@ def norm_seg(g, roles=None):
     c = n(g["count"])
     if c[0] == "op" and c[1] in ("Add", "Sub"):
         c = linear(c)
-    return {"count": c, "value": n(g["value"]), "cond": n(g["cond"])}
+    out = {"count": c, "value": n(g["value"]), "cond": n(g["cond"])}
+    if "inner" in g:
+        out["inner"] = [norm_seg(x) for x in g["inner"]]
+    return out
 
 
 def vector_segments(crate, f, ls, is_target, conds_of):
@@ -167,6 +205,36 @@ def vector_segments(crate, f, ls, is_target, conds_of):
                     problems.append("initial collect() over an iterator that is not understood")
                 else:
                     segs.extend(s)
+        if e["loop"] is not None:
+            group = [x for x in ls.events if x["loop"] == e["loop"] and x["sink"] in ("push", "extend") and is_target(_strip_refs(x["args"][0]))]
+            if not (len(group) == 1 and e["sink"] == "push"):
+                # several appends per iteration: one nested segment for the loop
+                if group[0] is not e:
+                    continue
+                lp = ls.loops[e["loop"]]
+                st = parse_stream(crate, lp["source"]) if (lp["parent"] is None and not lp["conds"] and lp["source_raw"] is not None) else None
+                if st is None or len(st) != 1 or "inner" in st[0]:
+                    problems.append("appends in a loop that is not understood")
+                    continue
+                item = ("item", lp["id"])
+                oval = subst(st[0]["value"], IX, IXO)
+                inner = []
+                for x in group:
+                    if any(T.find(item, c) is not None for cj in conds_of(x["block"]) for c, v in cj):
+                        problems.append("conditional append inside a loop with several appends")
+                    arg = subst(x["args"][1], item, oval)
+                    if x["sink"] == "push":
+                        inner.append(seg(("const", 1), arg))
+                    else:
+                        si = parse_stream(crate, arg)
+                        if si is None:
+                            # the elements of a vector-valued expression, in order
+                            base_ = _strip_refs(arg)
+                            si = [seg(("len", base_), ("index", base_, IX))]
+                        inner.extend(si)
+                segs.append({"count": st[0]["count"], "value": None,
+                             "cond": subst(st[0]["cond"], IX, IXO) if st[0]["cond"] is not None else None, "inner": inner})
+                continue
         if e["sink"] == "extend":
             s = parse_stream(crate, e["args"][1])
             if s is None or e["loop"] is not None:
@@ -281,3 +349,13 @@ def parse_first(crate, t):
         cond = c if s[0]["cond"] is None else ("op", "BitAnd", s[0]["cond"], c)
         return {"count": s[0]["count"], "cond": cond, "result": s[0]["value"], "unwrapped": False}
     return None
+
+
+def segments_of_value(crate, f, ls, base, conds_of):
+    """segments of a Vec-valued term of function f (ls must report push/extend): collect(stream) or a filled vector"""
+    base = _strip_refs(base)
+    if base[0] == "call" and isinstance(base[1], str) and (base[1].endswith("Iterator::collect") or base[1].endswith("::from_iter")) \
+            and not any(e["sink"] in ("push", "extend") and _strip_refs(e["args"][0]) == base for e in ls.events):
+        s = parse_stream(crate, base[2][0])
+        return (s, []) if s is not None else ([], ["collect() over an iterator that is not understood"])
+    return vector_segments(crate, f, ls, lambda b: b == base, conds_of)
